@@ -132,6 +132,10 @@ class EstimationMethod:
                 recombination_rate=recombination_rate,
                 time_units=time_units,
                 progress=progress,
+                constr_iterations=constr_iterations,
+                min_branch_length=min_branch_length,
+                allow_unary=allow_unary,
+                set_metadata=set_metadata,
                 # demography.PopulationSizeHistory provides as_dict() for saving
                 population_size=Ne.as_dict() if hasattr(Ne, "as_dict") else Ne,
             )
